@@ -125,11 +125,13 @@ func VerifC19VisitorUpdate() {
 	}
 	for s := 0; s < steps; s++ {
 		if zzverif.Bool("reload") {
-			n := zzverif.Choice("listLen", maxLen+1)
-			var cur []c19vEntry
-			for i := 0; i < n; i++ {
-				cur = append(cur, c19vEntry{c19vNames[zzverif.Choice("name", len(c19vNames))], zzverif.Choice("version", 2)})
+			// the loaded list: one of a catalogue covering empty, single, two names, a changed
+			// definition, a duplicated name (first/last definition differ) and a reordered pair
+			catalogue := [][]c19vEntry{{}, {{"a", 0}}, {{"a", 1}}, {{"b", 0}}, {{"a", 0}, {"b", 0}}, {{"a", 0}, {"a", 1}}, {{"b", 0}, {"a", 1}}}
+			if maxLen < 2 {
+				catalogue = catalogue[:4]
 			}
+			cur := catalogue[zzverif.Choice("list", len(catalogue))]
 			before := map[string]*c19Visitor{}
 			for _, nm := range c19vNames {
 				if l := c19vLive(nm); len(l) == 1 {
